@@ -87,6 +87,7 @@ type Field struct {
 	Index      int // message index
 	Type       *Type
 	Deprecated bool
+	Tag        string // rendered as a //[tag(...)] comment above the field
 }
 
 type Branch struct {
@@ -181,12 +182,18 @@ func RenderRecord(b *strings.Builder, r *Record, ind string) {
 		}
 		fmt.Fprintf(b, "%s%sstruct %s {\n", indIf(r.Inline, ind), ro, r.Name)
 		for _, f := range r.Fields {
+			if f.Tag != "" {
+				fmt.Fprintf(b, "%s\t//[tag(%s)]\n", ind, f.Tag)
+			}
 			fmt.Fprintf(b, "%s\t%s %s;\n", ind, f.Type.String(), f.Name)
 		}
 		fmt.Fprintf(b, "%s}\n", ind)
 	case Message:
 		fmt.Fprintf(b, "%smessage %s {\n", indIf(r.Inline, ind), r.Name)
 		for _, f := range r.Fields {
+			if f.Tag != "" {
+				fmt.Fprintf(b, "%s\t//[tag(%s)]\n", ind, f.Tag)
+			}
 			if f.Deprecated {
 				fmt.Fprintf(b, "%s\t[deprecated(\"old\")]\n", ind)
 			}
